@@ -99,7 +99,16 @@ end
 local r%d = GApi%d(1, %d)
 GShared%d = r%d
 print(cfg%d_%d.name, GShared%d, GShared%d)
-`, fi, v, v*10+fi, v, fi, v, fi, v, v, v, fi, v, fi, v, fi, v, fi, (fi+1)%3))
+---@class Item%d
+---@field name string @v%d
+---@field kids Item%d[]
+---@field count number
+---@type Item%d[]
+local items = {}
+for _, item in ipairs(items) do
+  for _, inner in pairs(item.kids) do print(item.name, inner.count) end
+end
+`, fi, v, v*10+fi, v, fi, v, fi, v, v, v, fi, v, fi, v, fi, v, fi, (fi+1)%3, fi, v, fi, fi))
 	}
 	// a version with a syntax error (live diagnostics path)
 	out = append(out, fmt.Sprintf("local cfg%d_9 = {\nfunction GApi%d(a, b) return a end\nGShared%d = (\n", fi, fi, fi))
@@ -162,7 +171,9 @@ func c10GenPhase(r *Rng, nmsg int, noEdits bool) c10Phase {
 	qmethods := []string{"textDocument/hover", "textDocument/definition", "textDocument/references", "textDocument/rename", "textDocument/documentSymbol",
 		"workspace/symbol", "textDocument/completion", "textDocument/documentHighlight", "luahelper/getVarColor", "textDocument/signatureHelp", "textDocument/documentColor"}
 	// fixed probe positions inside the version texts (line, char)
-	probes := [][2]int{{0, 8}, {1, 10}, {2, 10}, {2, 26}, {3, 10}, {5, 6}, {5, 13}, {6, 2}, {7, 8}, {7, 22}, {7, 33}}
+	probes := [][2]int{{0, 8}, {1, 10}, {2, 10}, {2, 26}, {3, 10}, {5, 6}, {5, 13}, {6, 2}, {7, 8}, {7, 22}, {7, 33}, {14, 8}, {15, 10}, {15, 25}, {15, 30}, {15, 45}, {15, 50}, {15, 56}, {15, 62}}
+	// the loop variables of the for-in loops at the end of every version, and their members: their types are inferred on demand
+	loopProbes := probes[len(probes)-8:]
 	for len(ph.Msgs) < nmsg {
 		fi := r.Intn(nfiles)
 		rel := rels[fi]
@@ -260,6 +271,18 @@ func c10GenPhase(r *Rng, nmsg int, noEdits bool) c10Phase {
 		m := qmethods[r.Intn(len(qmethods))]
 		var params map[string]interface{}
 		pr := probes[r.Intn(len(probes))]
+		if (m == "textDocument/hover" || m == "textDocument/definition") && r.Chance(1, 2) {
+			// a burst of cursor queries on the loop variables (an editor sends hover and definition together on ctrl+hover):
+			// several of them are in flight at the same time
+			for k := r.Range(3, 6); k > 0; k-- {
+				bm := r.Pick([]string{"textDocument/hover", "textDocument/definition"})
+				bp := loopProbes[r.Intn(len(loopProbes))]
+				params := tdPos(uri(rel), bp[0], bp[1])
+				b, _ := json.Marshal(params)
+				ph.Msgs = append(ph.Msgs, c10Msg{Kind: strings.TrimPrefix(bm, "textDocument/"), Method: bm, Params: params, QKey: bm + "|" + string(b)})
+			}
+			continue
+		}
 		switch m {
 		case "textDocument/documentSymbol", "textDocument/documentColor":
 			params = map[string]interface{}{"textDocument": map[string]interface{}{"uri": uri(rel)}}
